@@ -11,6 +11,12 @@ CLAIMED = {
         "note": "Map sites inside the standard library, cue, yaml.v3, expr and (for now) kin-openapi/jsonschema/codejen keep the runtime's order; a residual-nondeterminism self-check (same schedule twice, observations compared) polices that. Error texts are not compared, only ok/fail.",
         "design_ref": "DESIGN.md §5 C03",
     },
+    "C05": {
+        "technique": "deterministic simulation: monitored histories through the real pipeline stages (parser output, every language chain incl. derived builders, sequences of name-changing passes applied step by step, allowed_objects filtering) under seeded map-order schedules, with an independent reflective reference walker and reachability model as oracle; shrinking and replay",
+        "text": "Seeded histories of the real pass schedule, checked after every step by a reference-closure invariant computed by a walker that shares no code with compiler.Visitor; allowed_objects is compared with an independent least-fixpoint model. Sampled, not enumerated.",
+        "note": "Only IRs that are clean before a step are judged after it. References into packages that were not loaded are outside the claim. After allowed_objects filtering the entry point is not required to resolve (the statement's 'exactly' forces its removal when not listed). Four genuine defects are listed in known_findings.json.",
+        "design_ref": "DESIGN.md §5 C05",
+    },
     "C07": {
         "technique": "deterministic simulation: the language loop's order is pinned by the scheduler to shuffled permutations (alone vs together), input arrival order is permuted, unrelated/same-package inputs are added, and interference monitors hold the schemas shared by all language chains and compare them with a snapshot after every chain; replay",
         "text": "Sampling of pipelines under controlled language order and input order, with equality oracles (files per language, per package) and a shared-state interference monitor at the seam Pipeline.Run already has (probe compiler pass + progress reporter).",
